@@ -269,7 +269,7 @@ CHECKS = {
               "tuner on generated references x limits x layer_indexes x configurations, ALL assignments for small spaces; the q_dict handed to "
               "model_quantize is compared with the Coq select model and judged directly against the limits; delta() signs / order and "
               "compute_model_size are compared with the executable models; two directed cases (role words in layer names, two separable layers under "
-              "different limits). Three genuine defects repaired."),
+              "different limits), filter-scaling runs with exception patterns, and a comparison of the quantizers the built trial model really carries with the tuner's choices. Four genuine defects repaired."),
         design_ref="DESIGN.md section 5 C20, section 10.4, 10.8",
         note=(TB_COMMON + "The delta theorems use Coq's Reals: the standard library's real-number axioms (ClassicalDedekindReals.sig_forall_dec, "
               "sig_not_dec, FunctionalExtensionality.functional_extensionality_dep, Classical_Prop.classic) are the only assumptions, as Print "
